@@ -21,6 +21,82 @@
 #include "fakekernel.h"
 #include "fakenet.h"
 
+#include "network_ssl.h"
+
+/*
+ * The TLS transport ("tls" as the first op of a program): the reader and the writer are built with netbuf_ssl_read_init /
+ * netbuf_ssl_write_init over network_ssl contexts whose engine is scripted - its plaintext side is mapped onto the scripted
+ * sockets, so that SSL_read_ex / SSL_write_ex take their answers from the same scripts as recv / send (would-block and
+ * interrupted become "want read" / "want write", end of file alternates between a clean TLS end and a socket end, errors
+ * become SSL_ERROR_SYSCALL with that errno).
+ */
+typedef struct ssl_st SSL;
+#define SSL_ERROR_NONE		0
+#define SSL_ERROR_WANT_READ	2
+#define SSL_ERROR_WANT_WRITE	3
+#define SSL_ERROR_SYSCALL	5
+#define SSL_ERROR_ZERO_RETURN	6
+static int use_tls;
+static struct network_ssl_ctx * Cr, * Cw;
+static struct { SSL * s; int fd; } tls_map[8];
+static int tls_nmap, tls_err, tls_eofs;
+int __real_SSL_set_fd(SSL *, int);
+int __wrap_SSL_set_fd(SSL *, int);
+int __wrap_SSL_read_ex(SSL *, void *, size_t, size_t *);
+int __wrap_SSL_write_ex(SSL *, const void *, size_t, size_t *);
+int __wrap_SSL_get_error(const SSL *, int);
+int __wrap_SSL_shutdown(SSL *);
+static int
+tls_fdof(const SSL * s)
+{
+	int i;
+
+	for (i = tls_nmap - 1; i >= 0; i--) if (tls_map[i].s == s) return (tls_map[i].fd);
+	return (-1);
+}
+int
+__wrap_SSL_set_fd(SSL * s, int fd)
+{
+
+	if (tls_nmap < 8) { tls_map[tls_nmap].s = s; tls_map[tls_nmap].fd = fd; tls_nmap++; }
+	return (__real_SSL_set_fd(s, fd));
+}
+int
+__wrap_SSL_read_ex(SSL * s, void * buf, size_t num, size_t * done)
+{
+	ssize_t r = __wrap_recv(tls_fdof(s), buf, num, 0);
+
+	*done = 0;
+	if (r > 0) { *done = (size_t)r; tls_err = SSL_ERROR_NONE; return (1); }
+	if (r == 0) { tls_err = (tls_eofs++ & 1) ? SSL_ERROR_SYSCALL : SSL_ERROR_ZERO_RETURN; errno = 0; return (0); }
+	tls_err = (errno == EAGAIN || errno == EWOULDBLOCK || errno == EINTR) ? SSL_ERROR_WANT_READ : SSL_ERROR_SYSCALL;
+	return (0);
+}
+int
+__wrap_SSL_write_ex(SSL * s, const void * buf, size_t num, size_t * done)
+{
+	ssize_t r = __wrap_send(tls_fdof(s), buf, num, MSG_NOSIGNAL);	/* (this transport guards against SIGPIPE by other means) */
+
+	*done = 0;
+	if (r > 0) { *done = (size_t)r; tls_err = SSL_ERROR_NONE; return (1); }
+	tls_err = (r < 0 && (errno == EAGAIN || errno == EWOULDBLOCK || errno == EINTR)) ? SSL_ERROR_WANT_WRITE : SSL_ERROR_SYSCALL;
+	return (0);
+}
+int
+__wrap_SSL_get_error(const SSL * s, int ret)
+{
+
+	(void)s; (void)ret;
+	return (tls_err);
+}
+int
+__wrap_SSL_shutdown(SSL * s)
+{
+
+	(void)s;
+	return (1);
+}
+
 #define MAXW 512
 #define MAXOPS 16
 struct waitrec {
@@ -125,7 +201,10 @@ exec_op(const char * l, int ctx)
 
 	if (sscanf(l, "%31s", op) < 1)
 		return;
-	if (strcmp(op, "rx") == 0 || strcmp(op, "tx") == 0) {
+	if (strcmp(op, "tls") == 0 && R == NULL && W == NULL) {
+		use_tls = 1;
+
+	} else if (strcmp(op, "rx") == 0 || strcmp(op, "tx") == 0) {
 		struct fn_list * L;
 		if (sscanf(l, "%*s %ld %15s %ld %ld %lld", &a, k, &b, &c, &at) < 2 || a < 0 || a >= fk_n)
 			return;
@@ -135,13 +214,23 @@ exec_op(const char * l, int ctx)
 	} else if (strcmp(op, "rinit") == 0) {
 		if (R != NULL)
 			return;
-		R = netbuf_read_init(fk_real(rfd));
+		if (use_tls) {
+			if ((Cr = network_ssl_open(fk_real(rfd), "host.example")) != NULL && (R = netbuf_ssl_read_init(Cr)) == NULL) {
+				network_ssl_close(Cr); Cr = NULL;
+			}
+		} else
+			R = netbuf_read_init(fk_real(rfd));
 		vt_begin("rinit"); vt_bool("ok", R != NULL); common(); vt_end();
 	} else if (strcmp(op, "winit") == 0) {
 		if (W != NULL)
 			return;
 		fn_fds[wfd].txstream = 1;
-		W = netbuf_write_init(fk_real(wfd), fail_cb, NULL);
+		if (use_tls) {
+			if ((Cw = network_ssl_open(fk_real(wfd), "host.example")) != NULL && (W = netbuf_ssl_write_init(Cw, fail_cb, NULL)) == NULL) {
+				network_ssl_close(Cw); Cw = NULL;
+			}
+		} else
+			W = netbuf_write_init(fk_real(wfd), fail_cb, NULL);
 		vt_begin("winit"); vt_bool("ok", W != NULL); common(); vt_end();
 	} else if (strcmp(op, "wait") == 0) {
 		/* wait ID K: only if no wait is pending (API precondition) */
@@ -295,6 +384,8 @@ run_child(void)
 	aw_plan(0, 0);
 	if (R != NULL) { netbuf_read_wait_cancel(R); netbuf_read_free(R); }
 	if (W != NULL) netbuf_write_free(W);
+	if (Cr != NULL) network_ssl_close(Cr);
+	if (Cw != NULL) network_ssl_close(Cw);
 	vt_flush();
 	exit(0);
 }
